@@ -485,7 +485,90 @@ func checkCache(h *History, vs []*opView) {
 
 // ---- C15 end to end ----
 
-func checkC15e2e(h *History, vs []*opView) {}
+func checkC15e2e(h *History, vs []*opView) {
+	rp := h.RP
+	if rp.Limiter.Limit <= 0 || h.P.Focus != "C15" {
+		return
+	}
+	rate := float64(rp.Limiter.Limit)
+	burst := rp.Limiter.Burst
+	if burst <= 0 {
+		burst = int(rate)
+	}
+	type ev struct {
+		at       time.Duration
+		admitted bool
+		v        *opView
+	}
+	bySubnet := map[netip.Prefix][]ev{}
+	inUpstream := map[string]bool{}
+	for _, tag := range h.UpOrder {
+		for _, q := range h.Ups[tag].Queries {
+			inUpstream[q.Token] = true
+		}
+	}
+	for _, v := range vs {
+		if v.q == nil || !v.srcSeen.IsValid() {
+			continue
+		}
+		sn := subnetOf(rp.Limiter, v.srcSeen)
+		admitted, refused := false, false
+		for i, r := range v.o.Resps {
+			switch {
+			case v.isHTTP && r.Status == 503:
+				refused = true
+			case v.isHTTP && r.Status != 200:
+			case v.resps[i] != nil && v.resps[i].Rcode() == 5:
+				refused = true
+			case v.resps[i] != nil:
+				admitted = true
+			}
+		}
+		name := fmt.Sprintf("op %d (%s from %s, subnet %s)", v.o.Op.Idx, v.srv.Proto, v.cc.Src, sn)
+		if refused {
+			h.S.Probe("c15_e2e_refused")
+			if inUpstream[v.o.Op.Token] {
+				h.S.Fail("C15", "refused-but-forwarded", "%s was refused by the limiter but its question reached an upstream", name)
+			}
+		}
+		if v.isHTTP && len(v.o.Resps) > 0 && v.o.Resps[0].Status != 200 && v.o.Resps[0].Status != 503 && v.o.Op.HTTPVariant == "" {
+			h.S.Fail("C15", "http-refusal-status", "%s: HTTP status %d (refusals must be 503)", name, v.o.Resps[0].Status)
+		}
+		if admitted {
+			h.S.Probe("c15_e2e_admitted")
+		}
+		bySubnet[sn] = append(bySubnet[sn], ev{v.o.SentAt, admitted, v})
+	}
+	slackT := us(rp.Net.ClientLatUs[1]-rp.Net.ClientLatUs[0]).Seconds() + 0.01
+	for sn, l := range bySubnet {
+		sort.SliceStable(l, func(i, j int) bool { return l[i].at < l[j].at })
+		// bound: each admitted query costs at least 1
+		for i := range l {
+			n := 0
+			for j := i; j < len(l); j++ {
+				if l[j].admitted {
+					n++
+				}
+				w := (l[j].at - l[i].at).Seconds() + slackT
+				if float64(n) > float64(burst)+rate*w+1e-6 {
+					h.S.Fail("C15", "bound-e2e", "subnet %s: %d queries admitted within %.3fs; bound burst %d + rate %.0f x window = %.2f", sn, n, w, burst, rate, float64(burst)+rate*w)
+					i = len(l)
+					break
+				}
+			}
+		}
+		// isolation: a subnet whose total demand, at the highest conceivable
+		// cost per query, stays inside its burst cannot be refused (global limit off)
+		if rp.Limiter.Global == 0 && 64*len(l) <= burst {
+			h.S.Probe("c15_e2e_victim_checked")
+			for _, e := range l {
+				if !e.admitted && len(e.v.o.Resps) > 0 {
+					h.S.Fail("C15", "victim-refused", "subnet %s sent only %d queries (burst %d) and op %d was refused: other subnets' traffic was charged to it", sn, len(l), burst, e.v.o.Op.Idx)
+				}
+			}
+		}
+	}
+}
 
 // ---- C17 (c): listener mTLS ----
 
